@@ -164,21 +164,21 @@ def from_notes(d):
     needs = re.sub(r'\s+', ' ', m.group(1)).strip()[:600] if m else ''
     return title, needs
 for d in sorted(os.listdir('/verif/seeded')):
-    if re.fullmatch(r'C\d\d-[C-L]', d):
+    if re.fullmatch(r'C\d\d-[C-N]', d):
         S[d] = from_notes('/verif/seeded/' + d)
         if d in TITLE7:
             S[d] = (TITLE7[d], S[d][1])
 res = {}
 if os.path.exists('/verif/seeded/RESULTS.txt'):
     for l in open('/verif/seeded/RESULTS.txt'):
-        m = re.match(r'(C\d\d-[A-L])(?:/patch.diff)? (C\d\d) exit=(\d+)(.*)', l)
+        m = re.match(r'(C\d\d-[A-N])(?:/patch.diff)? (C\d\d) exit=(\d+)(.*)', l)
         if m:
             res.setdefault(m.group(1), []).append({"check": m.group(2), "exit": int(m.group(3)), "first_detail": m.group(4).strip()[:240]})
 for k, (change, needs) in S.items():
     d = '/verif/seeded/' + k
     conf = open(d + '/CONFIRM.txt').read().strip().split('\n') if os.path.exists(d + '/CONFIRM.txt') else []
     meta = {
-        "property": k[:3], "variant": k[4:], "round": 8 if k[4:] in "KL" else 7 if k[4:] in "IJ" else 6 if k[4:] in "GH" else (5 if k[:3] in ROUND3 else 4) if k[4:] in "EF" else (3 if k[:3] in ROUND3 else 2) if k[4:] in "CD" else 1, "written_by": "fresh sub-agent given only the property text and a scratch worktree (nothing from /verif)",
+        "property": k[:3], "variant": k[4:], "round": 9 if k[4:] in "MN" else 8 if k[4:] in "KL" else 7 if k[4:] in "IJ" else 6 if k[4:] in "GH" else (5 if k[:3] in ROUND3 else 4) if k[4:] in "EF" else (3 if k[:3] in ROUND3 else 2) if k[4:] in "CD" else 1, "written_by": "fresh sub-agent given only the property text and a scratch worktree (nothing from /verif)",
         "change": change, "needs_to_manifest": needs,
         "confirmed_by_me": {"how": "tools/confirm_seed.sh in the scratch worktree: patch applies; default-feature suite passes with it (all-features too where ALLFEAT=1); demo fails with it; demo passes without it", "log": conf},
         "checks_run_against_it": res.get(k, []),
